@@ -13,6 +13,7 @@ def run(ck):
     codec.r5_accessor_purity(ck, P)
     codec.r6_constant_tables(ck, P)
     codec.r7_unorm(ck, P)
+    codec.r9_color_to_pixel(ck, P)      # the direct-fill pixel is the same narrowing (shared with C19)
     ck.level = 'proof'
     n = sum(ck.rules[r]['n'] for r in ck.order if r.startswith(('C10-R1', 'C10-R2', 'C10-R7')))
     bad = sum(len(ck.rules[r]['viol']) + len(ck.rules[r]['incomplete']) for r in ck.order if r.startswith(('C10-R1', 'C10-R2', 'C10-R7')))
